@@ -249,7 +249,8 @@ def assume_c01(W, S, cfg):
             for k in range(i + 1, B):
                 W.assume(~contains(W, S, k, p) if W.symbolic
                          else not contains(W, S, k, p))
-    if not S.explored:
+    if True:
+        # (leftover candidates of an explored sampler keep their provenance)
         for q, s in zip(rows_of(S.points_t), cfg.get('prov', [])):
             W.assume(in_cube(W, q))
             if s < 0:
